@@ -114,6 +114,8 @@ pub mod k {
     pub const NO_REDO: i128 = 80; // after a 0-RTT rejection the client does not repeat its workload
     pub const HOSTILE_TP: i128 = 82; // >0: catalogue entry of hostile_tp::mutate applied to the peer's transport parameters as seen by the victim
     pub const HOSTILE_TP_SIDE: i128 = 83; // victim endpoint (0 client, 1 server); pair 0 (or the first real pair of a 0-RTT scenario) is attacked
+    pub const CLIENT_IDLE_MS: i128 = 84; // >=0: the client's own max_idle_timeout (0 = none) instead of IDLE_MS
+    pub const SERVER_IDLE2_MS: i128 = 85; // >=0: max_idle_timeout of the server's configuration from phase 2 of a 0-RTT scenario on (0 = none)
     pub const DGRAM_START: i128 = 81; // us: application datagrams are not sent before this instant
     pub const RECONNECT: i128 = 70; // open this many further client connections, one per drained connection (slot reuse)
 }
@@ -379,7 +381,10 @@ impl World {
     fn transport(&self, server: bool) -> TransportConfig {
         let p = &self.p;
         let mut t = TransportConfig::default();
-        let idle = p.get(k::IDLE_MS, 10_000);
+        let mut idle = p.get(k::IDLE_MS, 10_000);
+        if !server && p.get(k::CLIENT_IDLE_MS, -1) >= 0 {
+            idle = p.get(k::CLIENT_IDLE_MS, -1);
+        }
         if idle == 0 {
             t.max_idle_timeout(None);
         } else {
@@ -550,6 +555,15 @@ impl World {
         w.addr_id(caddr);
         w.addr_id(saddr);
         w
+    }
+
+    fn apply_idle2(p: &P, t: &mut TransportConfig) {
+        let v = p.get(k::SERVER_IDLE2_MS, -1);
+        if v == 0 {
+            t.max_idle_timeout(None);
+        } else if v > 0 {
+            t.max_idle_timeout(Some(IdleTimeout::try_from(Duration::from_millis(v as u64)).unwrap()));
+        }
     }
 
     fn new_app(&self, is_client: bool, idx: usize) -> App {
@@ -1679,6 +1693,7 @@ impl World {
                     let keyd = quinn_proto::rustls::pki_types::PrivateKeyDer::Pkcs8(key.into());
                     let mut scfg = ServerConfig::with_single_cert(vec![certd], keyd).unwrap();
                     let mut tcfg = self.transport(true);
+                    Self::apply_idle2(&self.p, &mut tcfg);
                     let srw = self.p.get(k::SERVER_RWND, 0);
                     if srw > 0 {
                         tcfg.receive_window(VarInt::from_u64(srw as u64).unwrap());
@@ -1690,6 +1705,14 @@ impl World {
                         base: std::time::UNIX_EPOCH + Duration::from_secs(1_700_000_000),
                         now_us: self.now_shared.clone(),
                     }));
+                    self.eps[1].ep.set_server_config(Some(Arc::new(scfg)));
+                }
+                if zero_rtt == 1 && self.p.get(k::SERVER_IDLE2_MS, -1) >= 0 {
+                    // same TLS configuration (tickets stay valid, 0-RTT is accepted), new transport parameters
+                    let mut scfg = (**self.server_cfg.as_ref().unwrap()).clone();
+                    let mut tcfg = self.transport(true);
+                    Self::apply_idle2(&self.p, &mut tcfg);
+                    scfg.transport_config(Arc::new(tcfg));
                     self.eps[1].ep.set_server_config(Some(Arc::new(scfg)));
                 }
                 self.trace.push(vec![13, self.now as i128, 6, zero_rtt]);
